@@ -60,9 +60,14 @@ func (p *Prog) exprFuncReturn(fn *ssa.Function, depth int) *ssa.Return {
 				return nil
 			}
 		case *ssa.Store:
-			al, isAl := x.Addr.(*ssa.Alloc)
-			_, isPar := x.Val.(*ssa.Parameter)
-			if !isAl || al.Heap || !isPar {
+			// a parameter spilled to a local, or a local composite value being put together
+			// (rate := Rate{Interval: i, Quantity: q}; return rate, nil)
+			addr := x.Addr
+			if fa, isFA := addr.(*ssa.FieldAddr); isFA {
+				addr = fa.X
+			}
+			al, isAl := addr.(*ssa.Alloc)
+			if !isAl || al.Heap {
 				return nil
 			}
 		case *ssa.Call:
